@@ -7,9 +7,10 @@
 //   MODE 0  integer-valued V            : fl = 0, sticky = 0, cd in {I-1, I}                     (I = integer digits = NDIG)
 //   MODE 1  V >= 1 with a fraction      : 1 <= fl <= p+1, sticky => fl = p+1, I = NDIG - fl >= 1, cd in {I-1, I}
 //   MODE 2  V < 1                       : fl <= cd+p+1, sticky => fl = cd+p+1, NDIG in {fl-cd+1, fl-cd+2}, NDIG <= fl
-// Oracle (Fixed / SemiFixed):  text == printf("%.{p}f", V): R = round-half-even(V * 10^p) computed on the digit run
-// (rounding digit, sticky = lower digits non-zero or round_up, parity of the digit above), printed with p decimals;
-// SemiFixed additionally drops trailing fractional zeros and a then-bare point.  Existing stream content is untouched.
+// Oracle (Fixed / SemiFixed):  text == printf("%.{p}f", V): R = round-half-even(V * 10^p) computed digit-wise on the run
+// (rounding digit, sticky = lower digits non-zero or round_up, parity of the digit above, ripple carry), printed with p
+// decimals; SemiFixed additionally drops trailing fractional zeros and a then-bare point.  The expected text is built as
+// a digit array and compared unit by unit (no arithmetic on either side).  Existing stream content is untouched.
 #include "fixed_stream.hpp"
 #include "Digit.hpp"
 #include "vf.h"
@@ -43,6 +44,7 @@ static bool is_digit(C c) { return c >= C('0') && c <= C('9'); }
 struct In {
     unsigned pl, p, fl, cd; bool ru; C p0, p1; C d[NDIG];
 };
+static unsigned digit_at(const In &in, unsigned pos) { return (pos < NDIG) ? unsigned(in.d[pos] - C('0')) : 0U; }
 static void draw(In &in) {
     in.pl = vf_u8(); in.p0 = vf_any<C>(); in.p1 = vf_any<C>();
     in.p = vf_u8(); in.fl = vf_u8(); in.cd = vf_u8(); in.ru = (vf_u8() & 1U) != 0U;
@@ -50,6 +52,19 @@ static void draw(In &in) {
     unsigned i = 0;
     while (i < NDIG) { in.d[i] = vf_any<C>(); vf_assume(is_digit(in.d[i])); ++i; }
     vf_assume(in.d[NDIG - 1U] != C('0'));
+    // without sticky the run is exact: V * 10^fl = odd * 5^fl, so (for fl >= 1) its last digit is 5
+    // (B is odd * 5^fl: last two digits 25/75 for fl >= 2, last three 125/375/625/875 for fl >= 3, last four x625-pattern)
+    if (MODE != 0 && !in.ru) {
+        const unsigned d0 = digit_at(in, 0), d1 = digit_at(in, 1), d2 = digit_at(in, 2), d3 = digit_at(in, 3);
+        vf_assume(d0 == 5U);
+        if (in.fl >= 2U) vf_assume(d1 == 2U || d1 == 7U);
+        if (in.fl >= 3U) vf_assume((d1 == 2U) ? (d2 == 1U || d2 == 6U) : (d2 == 3U || d2 == 8U));
+        if (in.fl >= 4U) {
+            const unsigned low3 = d2 * 100U + d1 * 10U + d0;     // 125 375 625 875
+            const unsigned low4 = d3 * 1000U + low3;
+            vf_assume(low4 == 625U || low4 == 1875U || low4 == 3125U || low4 == 4375U || low4 == 5625U || low4 == 6875U || low4 == 8125U || low4 == 9375U);
+        }
+    }
     if (MODE == 0) {
         vf_assume(in.fl == 0U && !in.ru && (in.cd == NDIG || in.cd + 1U == NDIG));
     } else if (MODE == 1) {
@@ -66,98 +81,114 @@ static void fill(FS &s, const In &in) {
     unsigned i = 0;
     while (i < NDIG) { s += in.d[i]; ++i; }
 }
-static unsigned digit_at(const In &in, unsigned pos) { return (pos < NDIG) ? unsigned(in.d[pos] - C('0')) : 0U; }
 
-// R = round-half-even(V * 10^p), from the digit run of B = floor(V * 10^fl) and the sticky flag
-static u64 ref_round(const In &in) {
-    u64 q = 0;
+enum : unsigned { RCAP = NDIG + PMAX + 2 };
+// digits of R = round-half-even(V * 10^p), least significant first, from the run of B = floor(V * 10^fl) and the sticky flag
+struct Rd { unsigned char g[RCAP]; unsigned m; bool tie, up; };   // m == 0 means R == 0; tie: exact half (no sticky)
+static Rd ref_round(const In &in) {
+    Rd r; r.m = 0; r.tie = false; r.up = false;
+    unsigned i = 0;
+    while (i < RCAP) { r.g[i] = 0; ++i; }
     if (in.fl <= in.p) {                      // nothing to cut: R = B * 10^(p - fl)   (sticky is false here by the model)
-        unsigned i = NDIG;
-        while (i > 0U) { --i; q = q * 10U + digit_at(in, i); }
-        unsigned z = in.p - in.fl;
-        while (z > 0U) { q *= 10U; --z; }
-        return q;
+        const unsigned z = in.p - in.fl;
+        i = 0;
+        while (i < NDIG) { r.g[z + i] = (unsigned char)digit_at(in, i); ++i; }
+        r.m = z + NDIG;
+        return r;
     }
     const unsigned k = in.fl - in.p;          // digits cut: positions 0 .. k-1
-    unsigned i = NDIG;
-    while (i > k) { --i; q = q * 10U + digit_at(in, i); }
+    i = k;
+    while (i < NDIG) { r.g[i - k] = (unsigned char)digit_at(in, i); ++i; }
+    r.m = (NDIG > k) ? (NDIG - k) : 0U;
     const unsigned rd = digit_at(in, k - 1U);
     bool lower = in.ru;
     unsigned j = 0;
     while (j + 1U < k) { if (digit_at(in, j) != 0U) lower = true; ++j; }
-    const bool up = (rd > 5U) || (rd == 5U && (lower || (digit_at(in, k) & 1U) != 0U));
-    return q + (up ? 1U : 0U);
-}
-
-// parse  digits [ '.' digits ]  from o[0..n): value of all digits, number of fraction digits; false if malformed
-struct Out { bool ok, dot; unsigned nint, nfrac; u64 val; C first, last; };
-static Out parse(const C *o, unsigned n) {
-    Out r; r.ok = true; r.dot = false; r.nint = 0; r.nfrac = 0; r.val = 0; r.first = C('0'); r.last = C('0');
-    unsigned i = 0;
-    while (i < n) {
-        const C c = o[i];
-        if (c == C('.')) { if (r.dot) r.ok = false; r.dot = true; }
-        else if (is_digit(c)) {
-            if (i == 0U) r.first = c;
-            r.val = r.val * 10U + u64(c - C('0'));
-            if (r.dot) ++r.nfrac; else ++r.nint;
-            r.last = c;
-        } else r.ok = false;
-        ++i;
+    r.tie = (rd == 5U) && !lower;
+    r.up = (rd > 5U) || (rd == 5U && (lower || (digit_at(in, k) & 1U) != 0U));
+    if (r.up) {                               // ripple carry
+        i = 0;
+        bool carry = true;
+        while (carry && i < r.m) { if (r.g[i] == 9) { r.g[i] = 0; } else { ++r.g[i]; carry = false; } ++i; }
+        if (carry) { r.g[r.m] = 1; ++r.m; }
     }
     return r;
+}
+// expected text for R with p decimals; SemiFixed drops trailing fractional zeros and the bare point
+struct Txt { C t[RCAP + 3]; unsigned n; };
+static Txt ref_text(const Rd &r, unsigned p, bool fixed) {
+    Txt x; x.n = 0;
+    unsigned i = r.m;
+    if (r.m <= p) { x.t[x.n] = C('0'); ++x.n; }                        // integer part
+    while (i > p) { --i; x.t[x.n] = C('0' + r.g[i]); ++x.n; }
+    unsigned keep = p;                                                  // fraction digits to print
+    if (!fixed) {
+        unsigned lo = 0;
+        while (lo < p && r.g[lo] == 0) ++lo;                            // trailing zeros (positions 0 .. lo-1)
+        keep = p - lo;
+    }
+    if (keep != 0U) {
+        x.t[x.n] = C('.'); ++x.n;
+        unsigned j = 0;
+        while (j < keep) { x.t[x.n] = C('0' + r.g[p - 1U - j]); ++x.n; ++j; }
+    }
+    return x;
 }
 
 extern "C" void h_fixed() {
     In in;
     draw(in);
-    const u64 R = ref_round(in);
-    // known finding classes, identified by the shape of the input
-    //  * precision 0 in Fixed format: a bare '.' is appended
+    const Rd R = ref_round(in);
+    const Txt want = ref_text(R, in.p, FIXED != 0);
+    // ---- known finding classes, identified by the shape of the input ----
+    // (1) Fixed format, precision 0: a bare '.' is appended ("7." for 7)
     const bool prec0_dot = (FIXED != 0) && in.p == 0U;
-    //  * the integer part ends in '0', the kept fraction is all zeros after rounding, and calculated_digits is the low
-    //    estimate (I-1): trimmed integer zeros are not all restored
-    bool low_zero = true;                      // the last integer digit and every kept fraction digit of R are '0'
+    // (2) after rounding, the last integer digit and every kept fraction digit are '0' and calculated_digits is the low
+    //     estimate (I-1): the zero-trimming loop runs into the integer part and not all zeros are restored (11150.001 -> 1115)
+    bool low_zero = (R.m > in.p);
     {
-        u64 t = R;
         unsigned i = 0;
-        while (i <= in.p) { if (t % 10U != 0U) low_zero = false; t /= 10U; ++i; }
+        while (i <= in.p) { if (R.g[i] != 0) low_zero = false; ++i; }
     }
     const bool trim_zeros = (MODE != 2) && low_zero && (in.cd + 1U == NDIG - in.fl);
-#ifdef KF_EXCL_C10_trim_integer_zeros
-    vf_assume(!trim_zeros);
-#endif
-#ifdef KF_ONLY_C10_trim_integer_zeros
-    vf_assume(trim_zeros);
-#endif
+    // (3) V < 0.1 (leading fraction zeros missing from the run) and the cut is an exact half: rounded up instead of to even
+    const bool tie_lead = (MODE == 2) && in.fl > in.p && R.tie && NDIG < in.fl;
+    // (4) precision 0, V < 1 rounding up to 1: nothing / a lone point is printed
+    const bool prec0_one = (MODE == 2) && in.p == 0U && R.m == 1U;
 #ifdef KF_EXCL_C10_prec0_dot
     vf_assume(!prec0_dot);
 #endif
 #ifdef KF_ONLY_C10_prec0_dot
     vf_assume(prec0_dot);
 #endif
+#ifdef KF_EXCL_C10_trim_integer_zeros
+    vf_assume(!trim_zeros);
+#endif
+#ifdef KF_ONLY_C10_trim_integer_zeros
+    vf_assume(trim_zeros);
+#endif
+#ifdef KF_EXCL_C10_tie_leading_zeros
+    vf_assume(!tie_lead);
+#endif
+#ifdef KF_ONLY_C10_tie_leading_zeros
+    vf_assume(tie_lead);
+#endif
+#ifdef KF_EXCL_C10_prec0_round_to_one
+    vf_assume(!prec0_one);
+#endif
+#ifdef KF_ONLY_C10_prec0_round_to_one
+    vf_assume(prec0_one);
+#endif
     FS s;
     fill(s, in);
     if (FIXED) Digit::formatStringNumberFixed<true>(s, SizeT(in.pl), in.p, in.cd, in.fl, in.ru);
     else Digit::formatStringNumberFixed<false>(s, SizeT(in.pl), in.p, in.cd, in.fl, in.ru);
-    vf_assert(!s.overflow && s.Length() > in.pl, 1);
+    vf_assert(!s.overflow && s.Length() >= in.pl, 1);
     if (in.pl >= 1U) vf_assert(s.First()[0] == in.p0, 2);
     if (in.pl >= 2U) vf_assert(s.First()[1] == in.p1, 3);
-    const Out o = parse(s.First() + in.pl, s.Length() - in.pl);
-    vf_assert(o.ok && o.nint >= 1U, 4);
-    vf_assert(o.nint == 1U || o.first != C('0'), 5);                 // no leading zero
-    if (FIXED) {
-        vf_assert(o.nfrac == in.p, 6);
-        vf_assert(o.dot == (in.p != 0U), 7);
-        vf_assert(o.val == R, 8);
-    } else {
-        vf_assert(o.nfrac <= in.p, 9);
-        vf_assert(o.dot == (o.nfrac != 0U), 10);                     // no bare point
-        vf_assert(o.nfrac == 0U || o.last != C('0'), 11);            // trailing fractional zeros removed
-        u64 v = o.val;
-        unsigned z = in.p - o.nfrac;
-        while (z > 0U && z <= PMAX) { v *= 10U; --z; }
-        vf_assert(v == R, 12);
-    }
+    vf_assert(s.Length() - in.pl == want.n, 4);
+    unsigned i = vf_u8();
+    vf_assume(i < want.n);
+    vf_assert(s.First()[in.pl + i] == want.t[i], 5);
     vf_witness();
 }
